@@ -16,7 +16,14 @@ ENGINES = [
 ]
 
 NOTES = ('All checks run the real cardutil code from /repo\'s working tree (PYTHONPATH=/repo first); no hooks. '
-         'Deciding step everywhere: exhaustive enumeration of a stated bounded space; see DESIGN.md.')
+         'Deciding step everywhere: exhaustive enumeration of a stated bounded space; see DESIGN.md. After its main '
+         'pass every check re-runs a slice of the same tasks in child interpreters on environment axes (python -O, '
+         'library DEBUG logging, a daylight-saving time zone, a non-main calling thread; C20 also without '
+         'python-dateutil); a case failing only there is reported with an @<axis> signature. Beside data (lengths, '
+         'values, contents, faults) the checks vary dimensions of use: kinds of file object, sizes beyond 1 MiB, '
+         'configuration handling (explicit, edited in place, replaced package default, Mapping types, key order), '
+         'calling conventions and argument types, one object asked several questions, out-of-domain calls before '
+         'valid ones, string literals harvested from the library source as inputs (DESIGN.md 0a, 7b).')
 
 _PENDING = 'check not built yet in this session (planned: DESIGN.md section 4); not claimed until it exists'
 
